@@ -18,6 +18,7 @@ func init() {
 	generators["frtrunc"] = genFRTrunc // truncations (C06)
 	generators["frhost"] = genFRHostile // hostile input (C07)
 	generators["frfail"] = genFRFail // failing / fragmenting sources (C15)
+	generators["conc"] = genConc     // concurrent pipelines under schedule perturbation (C08 C14)
 }
 
 var levels = []int{0, 0, 0, 512, 1024, 2048, 4096, 8192, 16384, 32768, 65536, 131072}
@@ -573,6 +574,72 @@ func genFRFail(w *bufio.Writer, thorough bool, r *Rng) {
 		for k := 0; k < calls; k++ {
 			fmt.Fprintf(w, "R %d %s %d %d 0 %s X:injected P:%s\n", r.Pick([]int{1, 4}), bf.ref, r.Pick([]int{0, 4096}), k,
 				[]string{"wt:-1", fmt.Sprintf("r:%d r:%d r:9", bf.clen+1, bf.clen+1)}[r.Intn(2)], bf.content)
+		}
+	}
+}
+
+// genConc: sessions that exercise the goroutine pipelines: multi-block inputs, Write/Flush/Write,
+// reuse after Close, early decode errors with a slow consumer, failing sinks.
+func genConc(w *bufio.Writer, thorough bool, r *Rng) {
+	n := 120
+	if thorough {
+		n = 1500
+	}
+	for i := 0; i < n; i++ {
+		conc := r.Pick([]int{2, 2, 3, 4, 8, 0})
+		o := wopts{bs: 65536, bc: r.Intn(2), cc: r.Intn(2), lvl: r.Pick([]int{0, 0, 512}), conc: conc}
+		var ops []string
+		ops = append(ops, "A:"+o.String())
+		frames := 1 + r.Intn(3)
+		for fidx := 0; fidx < frames; fidx++ {
+			k := 1 + r.Intn(5)
+			for j := 0; j < k; j++ {
+				switch r.Intn(6) {
+				case 0:
+					ops = append(ops, "f")
+				case 1:
+					ops = append(ops, "w:"+dataTok(r, r.Intn(300), 0))
+				case 2:
+					ops = append(ops, fmt.Sprintf("rf:%s:%d:-1:0", dataTok(r, r.Pick([]int{0, 65536, 200000, 400000}), 0), r.Pick([]int{0, 30000})))
+				default:
+					ops = append(ops, "w:"+dataTok(r, r.Pick([]int{65536, 65537, 131072, 200000, 300000}), 0))
+				}
+			}
+			ops = append(ops, "c")
+			if r.Intn(4) == 0 {
+				ops = append(ops, "c")
+			}
+			if fidx+1 < frames {
+				ops = append(ops, "R:-1")
+			}
+		}
+		fail := -1
+		if r.Intn(8) == 0 {
+			fail = r.Intn(20)
+		}
+		fmt.Fprintf(w, "W %d %s\n", fail, strings.Join(ops, " "))
+	}
+	// reader side: many-block frames, valid and with one corrupted block, slow consumers
+	for i := 0; i < n/2; i++ {
+		nb := 6 + r.Intn(14)
+		content := genContent(r.Pick([]int{0, 1, 5}), r.Intn(1000), nb*65536-r.Intn(3000))
+		fo := frameOpts{bsCode: 4, blockSize: 65536, bc: true, cc: r.Bool(), size: -1}
+		frame, fields := buildFrame(content, fo, r)
+		cref := saveBlob("cc", content)
+		conc := r.Pick([]int{2, 3, 4, 8})
+		slow := fmt.Sprintf("z:%d", r.Pick([]int{0, 5, 30, 120}))
+		if r.Intn(2) == 0 {
+			fmt.Fprintf(w, "R %d %s 0 -1 0 r:1000 %s r:%d r:%d r:9 E:%s\n", conc, saveBlob("cf", frame), slow, len(content), len(content), cref)
+			fmt.Fprintf(w, "R %d %s 0 -1 0 wt:-1 E:%s\n", conc, saveBlob("cf", frame), cref)
+		} else {
+			// corrupt the payload of an early block: its block checksum no longer matches
+			bad := append([]byte{}, frame...)
+			blk := r.Intn(3)
+			pos := fields[4+3*blk+1] + 5
+			bad[pos] ^= 0x40
+			ref := saveBlob("cbad", bad)
+			fmt.Fprintf(w, "R %d %s 0 -1 0 r:100 %s r:%d r:%d X:badblkck P:%s\n", conc, ref, slow, len(content), len(content), cref)
+			fmt.Fprintf(w, "R %d %s 0 -1 0 wt:-1 X:badblkck P:%s\n", conc, ref, cref)
 		}
 	}
 }
